@@ -256,7 +256,7 @@ func (p *coqPrinter) block(n *hclwrite.VerifNode) string {
 		}
 		return hv.CoqList(items)
 	}
-	return fmt.Sprintf("mkBlock %s %d (%s) %s %d %d %d %d %d %d []",
+	return fmt.Sprintf("mkBlock %s %d (%s) %s %d %d %d %d %d %d",
 		kl(0, bi), bi+1, p.body(n.Children[bi]), kl(bi+1, len(n.Children)),
 		p.handle(n, "leadComments"), p.handle(n, "typeName"), p.handle(n, "labels"),
 		p.handle(n, "open"), p.handle(n, "body"), p.handle(n, "close"))
@@ -276,7 +276,7 @@ func (p *coqPrinter) body(n *hclwrite.VerifNode) string {
 			p.fail("unexpected body child kind %s", c.Kind)
 		}
 	}
-	return fmt.Sprintf("mkBody %s %s []", hv.CoqList(items), p.itemIDs(n.Children))
+	return fmt.Sprintf("mkBody %s %s", hv.CoqList(items), p.itemIDs(n.Children))
 }
 
 func (p *coqPrinter) state(d *hclwrite.VerifNode, shelf []*hclwrite.Block) string {
@@ -825,7 +825,7 @@ func runCase(c *tcase, emit bool, full bool) (res *caseResult) {
 		}
 		var fs []oracleFail
 		// what the call returned
-		if mb != nil && !mb.cleared {
+		if mb != nil {
 			switch o.Kind {
 			case opSetVal, opSetTrav, opSetRaw:
 				if rb.attr == nil {
@@ -1093,9 +1093,9 @@ func lenBucket(n int) string {
 	return "29-40"
 }
 
-var knownKinds = map[string]bool{"settype-stale-handle": true, "label-with-template-char-dropped": true,
-	"clear-leaves-items": true, "set-returns-nil": true, "append-after-unterminated-item": true,
-	"label-escaped-introducer-misread": true, "remove-item-owning-brace-line-comment": true}
+// the open findings (registered in known_findings.json under exactly these
+// kinds); every other kind is reported in full
+var knownKinds = map[string]bool{"append-after-unterminated-item": true, "remove-item-owning-brace-line-comment": true}
 
 func runC12(cfg *hv.RunCfg) error {
 	rep := hv.NewReport("C12", cfg.Seed)
